@@ -366,9 +366,21 @@ func c02UpdateMeta(c *Check) {
 	var fileObj types.Object
 	for _, pt := range liveCreates {
 		call := r.CallAt(pt, isCreate)
-		suf, ok := pathSuffix(r.Info, r.FI.Decl.Body, call.Args[0], 0)
-		if !ok || !strings.HasSuffix(suf, ".new") || strings.HasSuffix(suf, ".meta") {
-			okTmp = false
+		// the path may be chosen per platform (`writePath := metaPath + ".new"; if inPlace { writePath = metaPath }`):
+		// what reaches the Create in the non-Windows world
+		cands := []ast.Expr{call.Args[0]}
+		if o, isVar := objOf(r.Info, call.Args[0]).(*types.Var); isVar && !o.IsField() {
+			if _, n := localDef(r.Info, r.FI.Decl.Body, o); n > 1 {
+				if defs, okD := r.ReachingDefs(o, pt, noWin); okD && len(defs) > 0 {
+					cands = defs
+				}
+			}
+		}
+		for _, cand := range cands {
+			suf, ok := pathSuffix(r.Info, r.FI.Decl.Body, cand, 0)
+			if !ok || !strings.HasSuffix(suf, ".new") || strings.HasSuffix(suf, ".meta") {
+				okTmp = false
+			}
 		}
 		tmpArg = call.Args[0]
 		if as, ok := pt.Node().(*ast.AssignStmt); ok && len(as.Lhs) > 0 {
@@ -473,8 +485,21 @@ func c02Recovery(c *Check) {
 			ast.Inspect(o.FI.Decl.Body, func(n ast.Node) bool {
 				if call, ok := n.(*ast.CallExpr); ok && (isCreate(o.Info, call) || isRename(o.Info, call)) {
 					for _, a := range call.Args {
-						if s, ok := pathSuffix(o.Info, o.FI.Decl.Body, a, 0); ok && s != ".meta" {
-							others[s] = true
+						// every value the path argument can take (a variable assigned per platform has several)
+						cands := []ast.Expr{a}
+						if v, isVar := objOf(o.Info, a).(*types.Var); isVar && !v.IsField() {
+							if _, n := localDef(o.Info, o.FI.Decl.Body, v); n > 1 {
+								if pt, found := o.F.PtOf(call.Pos()); found {
+									if defs, _ := o.ReachingDefs(v, pt, nil); len(defs) > 0 {
+										cands = defs
+									}
+								}
+							}
+						}
+						for _, cand := range cands {
+							if s, ok := pathSuffix(o.Info, o.FI.Decl.Body, cand, 0); ok && s != ".meta" {
+								others[s] = true
+							}
 						}
 					}
 				}
